@@ -274,17 +274,20 @@ macro_rules! api_impl {
             B(logos::SpannedIter<'s, $tb>),
         }
 
-        fn $state<'s>(l: &$any<'s>, src: &'s $src) -> String {
+        fn $state<'s>(l: &$any<'s>, src: &'s $src, src2: &'s $src) -> String {
             macro_rules! st {
                 ($x:expr, $t:literal) => {{
                     let sp = $x.span();
                     let isb: fn(&$src, usize) -> bool = $isb;
-                    let ok = sp.start <= sp.end && sp.end <= src.len() && isb(src, sp.start) && isb(src, sp.end);
+                    // the source the lexer itself reports: 0 = the first, 1 = the second, 9 = neither
+                    let cur: &$src = $x.source();
+                    let tag = if std::ptr::eq(cur, src) { 0 } else if std::ptr::eq(cur, src2) { 1 } else { 9 };
+                    let ok = sp.start <= sp.end && sp.end <= cur.len() && isb(cur, sp.start) && isb(cur, sp.end);
                     if ok {
-                        let good = $x.slice() == &src[sp.clone()] && $x.remainder() == &src[sp.end..] && std::ptr::eq($x.source(), src);
-                        format!("{}:{}-{}:x{}{}", $t, sp.start, sp.end, $x.extras, if good { "" } else { ":BADSLICE" })
+                        let good = $x.slice() == &cur[sp.clone()] && $x.remainder() == &cur[sp.end..];
+                        format!("{}:{}-{}:x{}:s{}{}", $t, sp.start, sp.end, $x.extras, tag, if good { "" } else { ":BADSLICE" })
                     } else {
-                        format!("{}:{}-{}:BADSPAN", $t, sp.start, sp.end)
+                        format!("{}:{}-{}:s{}:BADSPAN", $t, sp.start, sp.end, tag)
                     }
                 }};
             }
@@ -294,7 +297,7 @@ macro_rules! api_impl {
             }
         }
 
-        fn $fname(src: &$src, partial: bool, ops: &[&str]) -> String {
+        fn $fname(src: &$src, src2: &$src, partial: bool, ops: &[&str]) -> String {
             let first = if partial { Lexer::<$ta>::partial_with_extras(src, 7) } else { Lexer::<$ta>::with_extras(src, 7) };
             let mut pool: Vec<$any> = vec![$any::A(first.spanned())];
             let mut out = String::new();
@@ -308,7 +311,7 @@ macro_rules! api_impl {
                             $any::A(x) => item((**x).next()),
                             $any::B(x) => item((**x).next()),
                         };
-                        out.push_str(&format!("{}={} ", r, $state(&pool[idx], src)));
+                        out.push_str(&format!("{}={} ", r, $state(&pool[idx], src, src2)));
                         i += 2;
                     }
                     "snext" => {
@@ -316,7 +319,7 @@ macro_rules! api_impl {
                             $any::A(x) => x.next().map(|(t, s)| format!("{}@{}-{}", item(Some(t)), s.start, s.end)).unwrap_or("None".into()),
                             $any::B(x) => x.next().map(|(t, s)| format!("{}@{}-{}", item(Some(t)), s.start, s.end)).unwrap_or("None".into()),
                         };
-                        out.push_str(&format!("{}={} ", r, $state(&pool[idx], src)));
+                        out.push_str(&format!("{}={} ", r, $state(&pool[idx], src, src2)));
                         i += 2;
                     }
                     "bump" => {
@@ -325,7 +328,7 @@ macro_rules! api_impl {
                             $any::A(x) => x.bump(n),
                             $any::B(x) => x.bump(n),
                         }));
-                        out.push_str(&format!("{}={} ", if r.is_ok() { "ok" } else { "panic" }, $state(&pool[idx], src)));
+                        out.push_str(&format!("{}={} ", if r.is_ok() { "ok" } else { "panic" }, $state(&pool[idx], src, src2)));
                         i += 3;
                     }
                     "clone" => {
@@ -333,18 +336,20 @@ macro_rules! api_impl {
                             $any::A(x) => $any::A(x.clone()),
                             $any::B(x) => $any::B(x.clone()),
                         };
-                        out.push_str(&format!("clone={} ", $state(&c, src)));
+                        out.push_str(&format!("clone={} ", $state(&c, src, src2)));
                         pool.push(c);
                         i += 2;
                     }
                     "fresh" => {
                         // a new lexer over the same source in the given mode (the pool then holds lexers of both modes)
                         let p = ops.get(i + 1).map(|s| *s == "1").unwrap_or(false);
-                        let l = if p { Lexer::<$ta>::partial_with_extras(src, 7) } else { Lexer::<$ta>::with_extras(src, 7) };
+                        let k = ops.get(i + 2).map(|s| *s != "0").unwrap_or(false);
+                        let which = if k { src2 } else { src };
+                        let l = if p { Lexer::<$ta>::partial_with_extras(which, 7) } else { Lexer::<$ta>::with_extras(which, 7) };
                         let c = $any::A(l.spanned());
-                        out.push_str(&format!("fresh={} ", $state(&c, src)));
+                        out.push_str(&format!("fresh={} ", $state(&c, src, src2)));
                         pool.push(c);
-                        i += 2;
+                        i += 3;
                     }
                     "clonefrom" => {
                         // pool[idx].clone_from(&pool[j]) on the lexers themselves (in place), when they have the same token type
@@ -358,7 +363,7 @@ macro_rules! api_impl {
                             ($any::B(x), $any::B(y)) => (**x).clone_from(&**y),
                             _ => {}
                         }
-                        out.push_str(&format!("clonefrom={} ", $state(&pool[idx], src)));
+                        out.push_str(&format!("clonefrom={} ", $state(&pool[idx], src, src2)));
                         i += 3;
                     }
                     "morph" => {
@@ -366,7 +371,7 @@ macro_rules! api_impl {
                             $any::A(x) => $any::B((**x).clone().morph::<$tb>().spanned()),
                             $any::B(x) => $any::A((**x).clone().morph::<$ta>().spanned()),
                         };
-                        out.push_str(&format!("morph={} ", $state(&m, src)));
+                        out.push_str(&format!("morph={} ", $state(&m, src, src2)));
                         pool[idx] = m;
                         i += 2;
                     }
@@ -498,7 +503,8 @@ fn main() {
                 let src = unhex(t[1]);
                 match std::str::from_utf8(&src) {
                     Ok(s) => {
-                        let r = catch_unwind(AssertUnwindSafe(|| do_api(s, t[2] == "1", &t[3..])));
+                        let s2 = format!("é{} zz9", s);
+                        let r = catch_unwind(AssertUnwindSafe(|| do_api(s, &s2, t[2] == "1", &t[3..])));
                         r.unwrap_or_else(|_| "PANIC".into())
                     }
                     Err(_) => "NOTUTF8".into(),
@@ -510,7 +516,10 @@ fn main() {
             }
             "APIB" => {
                 let src = unhex(t[1]);
-                let r = catch_unwind(AssertUnwindSafe(|| do_api_b(&src, t[2] == "1", &t[3..])));
+                let mut s2: Vec<u8> = vec![0xC3, 0xA9];
+                s2.extend_from_slice(&src);
+                s2.extend_from_slice(b" zz9");
+                let r = catch_unwind(AssertUnwindSafe(|| do_api_b(&src, &s2, t[2] == "1", &t[3..])));
                 r.unwrap_or_else(|_| "PANIC".into())
             }
             _ => "BADCMD".into(),
